@@ -50,13 +50,30 @@ impl Cfg {
     pub fn default_small() -> Cfg {
         Cfg { codec: 0, level: 0, block_size: 1024, interval: 8, levels: 0 }
     }
+    /// The setters are called in an order that depends on the configuration, so that every order
+    /// of builder calls occurs over a run (a setter must not depend on what was set before it).
     pub fn builder(&self) -> grenad::WriterBuilder {
         let mut b = Writer::builder();
-        b.compression_type(codec_of(self.codec))
-            .compression_level(self.level)
-            .block_size(self.block_size)
-            .index_key_interval(NonZeroUsize::new(self.interval).unwrap())
-            .index_levels(self.levels);
+        let perm = (self.codec as usize + self.level as usize + self.block_size + self.interval + self.levels as usize) % 5;
+        for step in 0..5 {
+            match (step + perm) % 5 {
+                0 => {
+                    b.compression_type(codec_of(self.codec));
+                }
+                1 => {
+                    b.compression_level(self.level);
+                }
+                2 => {
+                    b.block_size(self.block_size);
+                }
+                3 => {
+                    b.index_key_interval(NonZeroUsize::new(self.interval).unwrap());
+                }
+                _ => {
+                    b.index_levels(self.levels);
+                }
+            }
+        }
         b
     }
     pub fn json(&self) -> serde_json::Value {
